@@ -18,7 +18,14 @@ import (
 // from one seed so that a disagreement replays exactly.
 type Rand struct{ s uint64 }
 
-func NewRand(seed uint64) *Rand { return &Rand{s: seed*0x9E3779B97F4A7C15 + 0x1234567} }
+func NewRand(seed uint64) *Rand {
+	// the seed is passed through the output function first: with s = seed*gamma+c the
+	// streams of neighbouring seeds would be shifted copies of each other
+	z := seed + 0x1234567
+	z = (z ^ (z >> 30)) * 0xBF58476D1CE4E5B9
+	z = (z ^ (z >> 27)) * 0x94D049BB133111EB
+	return &Rand{s: z ^ (z >> 31)}
+}
 func (r *Rand) U64() uint64 {
 	r.s += 0x9E3779B97F4A7C15
 	z := r.s
